@@ -211,6 +211,9 @@ func c06MakeCase(idx int) c06Case {
 	c.Slow1 = c06SlowSpec(rng, c.N)
 	c.Sched = vfdSched{GossipDelayMs: rng.Range(0, 120), BundleDelayMs: rng.Range(0, 80),
 		DupPct: []int{100, 100, 50, 0}[rng.Intn(4)], DupDelayMs: rng.Range(0, 200), AsyncPct: []int{0, 25, 50}[rng.Intn(3)]}
+	if idx%4 == 2 {
+		c.Sched.GarbledFirstPct = []int{5, 15, 40}[rng.Intn(3)]
+	}
 	nres := 1
 	if rng.Chance(35) {
 		nres = 2
